@@ -209,6 +209,25 @@ func Main(id string) {
 			NC: nc, MaxDepth: d, AuditDepth: audit,
 			OpsFor: func(path []int, info Info) []int {
 				ops := OpsFor(info, reduced && !nc.Negative)
+				if id == "C01" && !nc.Negative && len(path) == d-1 && d > 1 {
+					// the last round of a path can only matter for agreement if somebody can commit in it:
+					// PROPOSE delivered, PRECOMMIT reaching a quorum, COMMIT reaching somebody. The other
+					// scenarios only produce states nobody expands. Rounds in which the Byzantine leader
+					// acts come first, so that a deadline cuts the honest-leader rounds of the level first.
+					var keep, adv []int
+					for _, op := range ops {
+						sc := AllScenarios[op]
+						if sc.P != 0 || (sc.Q1 != 0 && sc.Q1 != 2) || sc.Q2 == 1 {
+							continue
+						}
+						if sc.L > 0 || sc.J > 0 {
+							adv = append(adv, op)
+						} else {
+							keep = append(keep, op)
+						}
+					}
+					ops = append(adv, keep...)
+				}
 				if maxBumps < 0 {
 					return ops
 				}
@@ -252,6 +271,12 @@ func Main(id string) {
 				}
 			},
 			Stop: stop,
+			Priority: func(op int) int {
+				if sc := AllScenarios[op]; sc.L > 0 || sc.J > 0 {
+					return 1
+				}
+				return 0
+			},
 		})
 		auditedTotal += st.Crashes
 		if !nc.Negative {
